@@ -142,7 +142,7 @@ pub trait Scenario: Sync {
         None
     }
     fn cpu_limit_s(&self, _property: &str) -> u64 {
-        20
+        60
     }
     /// Build per-worker fixtures (templates, pools made by git) once, outside any simulation.
     fn worker_init(&self, _dir: &Path, _tier: Tier) {}
